@@ -29,14 +29,19 @@ pub struct QuerySpec {
 pub struct Params {
     pub name: String,
     pub queries: Vec<QuerySpec>,
+    /// queries served one after the other (no scheduler involvement) before the concurrent ones start: they
+    /// leave the node's `metrics` binding in a non-initial state
+    #[serde(default)]
+    pub warm: Vec<QuerySpec>,
 }
 
 const SEC: i64 = 1_000_000_000;
 
 fn window_sql(hours_ago: i64, select: &str) -> String {
-    // the chunk of "hours_ago" holds rows at bucket start + 10 min
-    let lo = hour_bucket(EPOCH_NS) - hours_ago * HOUR;
-    let hi = lo + HOUR - 1;
+    // the chunk of "hours_ago" holds rows at bucket start + 10 min; hours_ago = 10*a + b selects the hours a..=b ago
+    let (first, last) = if hours_ago >= 10 { (hours_ago / 10, hours_ago % 10) } else { (hours_ago, hours_ago) };
+    let lo = hour_bucket(EPOCH_NS) - first.max(last) * HOUR;
+    let hi = hour_bucket(EPOCH_NS) - first.min(last) * HOUR + HOUR - 1;
     // Int64 timestamp column + integer literals: the form the time-range extraction understands (see C04)
     format!("SELECT {select} FROM metrics WHERE timestamp >= {lo} AND timestamp <= {hi}")
 }
@@ -112,10 +117,17 @@ pub struct C10Scenario {
 #[async_trait(?Send)]
 impl Scenario for C10Scenario {
     async fn setup(&mut self, ctl: &Ctl) {
-        ctl.set_hook_filter(|l| l.starts_with("query:"));
         let (mem, local) = build_world().await;
-        let gm: Arc<dyn MetadataClient> = GatedMeta::new(local.clone(), "Q", ctl);
+        let gating = Arc::new(std::sync::atomic::AtomicBool::new(false));
+        let g2 = gating.clone();
+        let gm: Arc<dyn MetadataClient> = GatedMeta::with_filter(local.clone(), "Q", ctl, move |_| g2.load(std::sync::atomic::Ordering::SeqCst));
         let node = Arc::new(new_node(&mem, gm.clone()).await);
+        for w in &self.p.warm {
+            let r = run_query(&node, gm.clone(), w).await;
+            self.results.lock().unwrap().insert(w.name.clone(), r);
+        }
+        gating.store(true, std::sync::atomic::Ordering::SeqCst);
+        ctl.set_hook_filter(|l| l.starts_with("query:"));
         for q in self.p.queries.clone() {
             let node = node.clone();
             let gm = gm.clone();
@@ -139,7 +151,7 @@ impl Scenario for C10Scenario {
         }
         let results = self.results.lock().unwrap().clone();
         let trace = ctl.trace();
-        for q in &self.p.queries {
+        for q in self.p.warm.iter().chain(self.p.queries.iter()) {
             let got = results.get(&q.name);
             let want = self.expected.get(&q.name);
             if got != want {
@@ -172,7 +184,7 @@ fn expected_for(p: &Params) -> BTreeMap<String, Result<Vec<String>, String>> {
         let rt = tokio::runtime::Builder::new_current_thread().enable_all().start_paused(true).build().unwrap();
         let out = rt.block_on(async {
             let mut m = BTreeMap::new();
-            for q in &p.queries {
+            for q in p.warm.iter().chain(p.queries.iter()) {
                 let (mem, local) = build_world().await;
                 let meta: Arc<dyn MetadataClient> = local.clone();
                 let node = new_node(&mem, meta.clone()).await;
@@ -198,17 +210,29 @@ fn q(name: &str, hours_ago: i64, select: &str, tenant: &str, streaming: bool) ->
 }
 
 pub fn plans(tier: &str) -> Vec<(Params, Cost)> {
+    let all = Cost { preempt: 1000, ..Cost::ZERO };
+    let sel = "value_f64, host";
+    let p = |name: &str, warm: Vec<QuerySpec>, queries: Vec<QuerySpec>| Params { name: name.into(), queries, warm };
     let mut v = vec![
-        (Params { name: "two queries, disjoint windows".into(), queries: vec![q("Q1", 1, "value_f64, host", "default", false), q("Q2", 2, "value_f64, host", "default", false)] }, Cost { preempt: 1000, ..Cost::ZERO }),
-        (Params { name: "query + aggregate, disjoint windows".into(), queries: vec![q("Q1", 1, "count(*), min(value_f64)", "default", false), q("Q2", 3, "value_f64", "default", false)] }, Cost { preempt: 1000, ..Cost::ZERO }),
-        (Params { name: "query vs streaming historical phase".into(), queries: vec![q("Q1", 1, "value_f64, host", "default", false), q("S2", 2, "value_f64, host", "default", true)] }, Cost { preempt: 1000, ..Cost::ZERO }),
+        (p("two queries, disjoint windows", vec![], vec![q("Q1", 1, sel, "default", false), q("Q2", 2, sel, "default", false)]), all),
+        (p("query + aggregate, disjoint windows", vec![], vec![q("Q1", 1, "count(*), min(value_f64)", "default", false), q("Q2", 3, "value_f64", "default", false)]), all),
+        (p("query vs streaming historical phase", vec![], vec![q("Q1", 1, sel, "default", false), q("S2", 2, sel, "default", true)]), all),
+        // non-initial binding: the node has served A before; one of the racing queries selects the same chunk set again
+        (p("warm node (A served), then B vs A again", vec![q("A1", 1, sel, "default", false)], vec![q("B", 2, sel, "default", false), q("A2", 1, "host, value_f64", "default", false)]), all),
+        (p("warm node (A served), then B vs streaming A again", vec![q("A1", 1, sel, "default", false)], vec![q("B", 2, sel, "default", false), q("SA", 1, sel, "default", true)]), all),
+        (p("overlapping chunk sets {1,2} vs {2,3}", vec![], vec![q("Q12", 21, sel, "default", false), q("Q23", 32, "count(*), max(value_f64)", "default", false)]), all),
+        (p("subset chunk sets {1,2,3} vs {2}", vec![q("W2", 2, sel, "default", false)], vec![q("Q123", 31, "count(*)", "default", false), q("Q2", 2, sel, "default", false)]), all),
+        (p("empty selection vs non-empty", vec![], vec![q("E", 7, "count(*)", "default", false), q("Q1", 1, sel, "default", false)]), all),
+        (p("warm node (A served), then empty selection vs A again", vec![q("A1", 1, sel, "default", false)], vec![q("E", 7, "count(*)", "default", false), q("A2", 1, "host", "default", false)]), all),
+        (p("three queries, the third repeats the first", vec![], vec![q("Q1", 1, sel, "default", false), q("Q2", 2, sel, "default", false), q("Q1b", 1, "host", "default", false)]), Cost { preempt: if tier == "thorough" { 4 } else { 3 }, ..Cost::ZERO }),
     ];
     if tier == "thorough" {
+        v.push((p("three queries, two tenants", vec![], vec![q("Q1", 1, sel, "default", false), q("Q2", 2, sel, "default", false), q("Q3", 3, "value_f64", "tenant-b", false)]), Cost { preempt: 4, ..Cost::ZERO }));
+        v.push((p("two streaming subscriptions", vec![], vec![q("S1", 1, sel, "default", true), q("S2", 2, sel, "default", true)]), all));
         v.push((
-            Params { name: "three queries, two tenants".into(), queries: vec![q("Q1", 1, "value_f64, host", "default", false), q("Q2", 2, "value_f64, host", "default", false), q("Q3", 3, "value_f64", "tenant-b", false)] },
-            Cost { preempt: 4, ..Cost::ZERO },
+            p("warm node (A, B served), then three queries", vec![q("A1", 1, sel, "default", false), q("B1", 2, sel, "default", false)], vec![q("A2", 1, "host", "default", false), q("C", 3, sel, "default", false), q("B2", 2, "count(*)", "default", false)]),
+            Cost { preempt: 3, ..Cost::ZERO },
         ));
-        v.push((Params { name: "two streaming subscriptions".into(), queries: vec![q("S1", 1, "value_f64, host", "default", true), q("S2", 2, "value_f64, host", "default", true)] }, Cost { preempt: 1000, ..Cost::ZERO }));
     }
     v
 }
@@ -229,7 +253,7 @@ pub fn run(tier: &str) -> i32 {
         );
         rep.absorb_explore(&p.name, &serde_json::to_value(&p).unwrap(), &st, bounds);
     }
-    rep.set("rule", "an execution = one complete interleaving of 2-3 queries on one QueryNode (catalog calls and registration pause points as scheduling points); each result is compared with the same query run alone on a fresh node over the same data; states = quiescent points");
+    rep.set("rule", "an execution = one complete interleaving of 2-3 queries on one QueryNode, cold or after having served other queries (catalog calls and registration pause points as scheduling points); each result is compared with the same query run alone on a fresh node over the same data; states = quiescent points");
     let ex = rep.get_u64("executions");
     rep.set("distinct_nontrivial", ex.min(rep.get_u64("states").max(2)));
     rep.set("distinct_result_combinations", outcomes.len() as u64);
@@ -237,6 +261,7 @@ pub fn run(tier: &str) -> i32 {
     for (p, _) in plans(tier) {
         for (n, r) in expected_for(&p) {
             if !matches!(&r, Ok(v) if !v.is_empty()) {
+                // (a count(*) over an empty selection still returns one row, so this holds for every query)
                 rep.machinery(format!("vacuity guard: query {n} of `{}` returns {r:?} when run alone", p.name));
             }
         }
